@@ -176,6 +176,9 @@ class SHList(CStruct):
             s_null = bytes(Shdr.unpack(b"\x00" * 0x100))
             offset = self.parent_head.Doshdr.lfanew + len(self.parent_head.NTsig) + len(
                 self.parent_head.Coffhdr) + self.parent_head.Coffhdr.sizeofoptionalheader + len(bytes(self.parent_head.SHList) + s_null)
+            # Section data starts after the area reserved for the headers,
+            # so that the section table can grow with later add_section
+            offset = max(offset, self.parent_head.NThdr.sizeofheaders)
             addr = 0x2000
         # round addr
         addr = (addr + (s_align - 1)) & ~(s_align - 1)
